@@ -421,6 +421,25 @@ pub fn gen(out: &mut Out, thorough: bool, focus: &str) {
         l(format!("serde sj #{};", cps_inner(nn)), out);
         l(format!("serde sj [#{};]", cps_inner(nn)), out);
     }
+    // serde_json numbers at the edges of its three representations, alone and nested
+    {
+        let edge: Vec<serde_json::Value> = vec![
+            serde_json::json!(u64::MAX), serde_json::json!(u64::MAX - 1), serde_json::json!(i64::MAX as u64 + 1), serde_json::json!(i64::MAX),
+            serde_json::json!(i64::MIN), serde_json::json!(i64::MIN + 1), serde_json::json!(-1), serde_json::json!(0), serde_json::json!(1u64 << 53), serde_json::json!((1u64 << 53) + 1),
+            serde_json::json!(-0.0), serde_json::json!(0.0), serde_json::json!(5e-324), serde_json::json!(-5e-324), serde_json::json!(2.2250738585072014e-308),
+            serde_json::json!(f64::MAX), serde_json::json!(f64::MIN), serde_json::json!(1e21), serde_json::json!(1e-7), serde_json::json!(18446744073709551616.0), serde_json::json!(-9223372036854775808.0), serde_json::json!(0.1),
+        ];
+        for e in &edge {
+            for sj in [e.clone(), serde_json::json!([e.clone()]), serde_json::json!({ "k": [e.clone(), { "n": e.clone() }] })] {
+                let v = Value::from_serde_json(sj.clone());
+                out.cur = format!("serde sj {}", show_value(&v));
+                let again = std::panic::catch_unwind(|| v.clone().into_serde_json());
+                let ok = again.as_ref().map_or(false, |x| *x == sj);
+                out.oracle(ok, "serde_json -> json-syntax -> serde_json: equal", || format!("{} -> {:?}", sj, again.as_ref().map(|x| x.to_string())));
+                out.count("sj_edge_numbers");
+            }
+        }
+    }
     for i in 0..n {
         let v = if i % 3 == 0 { crate::print::gen_value(&mut out.rng, 0, 3) } else { crate::canon::gen_ijson(&mut out.rng, 0, 3) };
         l(format!("serde sj {}", show_value(&v)), out);
